@@ -281,6 +281,39 @@ def big_sentence(rng, nconst, sid=1):
     return {"sid": sid, "tokens": tokens, "root": [ROOT, "--", items]}
 
 
+def twin_sentence(rng, k, sid=1, copies=None):
+    """A sentence whose root has the same subtree several times side by side: the same rule
+    occurs more than once in ONE tree, in the same vertical context."""
+    k2 = dict(k)
+    k2["n_min"], k2["n_max"], k2["disc"], k2["flat"] = 1, min(3, max(1, k.get("n_max", 3))), 0.0, 0.0
+    base = gen_sentence(rng, k2, sid)
+    n = len(base["tokens"])
+    copies = copies or rng.choice([2, 2, 3])
+
+    def shift(node, off):
+        if isinstance(node, int):
+            return node + off
+        return [node[0], node[1], [shift(c, off) for c in node[2]]]
+    tokens, kids = [], []
+    for r in range(copies):
+        tokens.extend(clone(base["tokens"]))
+        kids.extend(shift(c, r * n) for c in base["root"][2])
+    return {"sid": sid, "tokens": tokens, "root": [ROOT, "--", kids]}
+
+
+def add_twins(rng, tb, k, p=0.25):
+    """With probability p append a twin sentence; half of the time the same sentence is also put
+    first, so that its rules are already known when the twin sentence arrives."""
+    if tb and rng.random() < p:
+        s = twin_sentence(rng, k, sid=tb[-1]["sid"] + 1)
+        tb.append(s)
+        if rng.random() < 0.5:
+            tb.insert(0, clone(s))
+            for i, x in enumerate(tb):
+                x["sid"] = i + 1
+    return tb
+
+
 def token_tree(rng, k, sid=1):
     """A tree that consists of a single token (its root is the token)."""
     w, p = gen_word(rng, k)
